@@ -25,6 +25,7 @@ fn gen(family: Family, universe: u32, weights: Vec<(Kd, u32)>) -> Gen {
         fresh_counter: 0,
         max_hint: 3000,
         no_fill: false,
+        fault_pct: 0,
         churn: None,
         order: Vec::new(),
     }
@@ -35,7 +36,7 @@ fn pick_world(rng: &mut Rng, ws: &[(&str, u32)]) -> String {
     ws[rng.weighted(&w)].0.to_string()
 }
 
-const MAP_WORLDS: &[(&str, u32)] = &[("M16", 5), ("Mpod", 2), ("M208", 1), ("M64a", 1)];
+const MAP_WORLDS: &[(&str, u32)] = &[("M16", 5), ("Mpod", 2), ("M208", 1), ("M64a", 1), ("M5", 1), ("M6", 1)];
 
 /// State-building operations that every map profile mixes in.
 const MAP_BUILD: &[(Kd, u32)] = &[(Kd::Insert, 30), (Kd::Remove, 14), (Kd::Extend, 3), (Kd::Clear, 1), (Kd::Reserve, 1), (Kd::ShrinkTo, 1), (Kd::ShrinkToFit, 1), (Kd::WithCapacity, 1), (Kd::Get, 2), (Kd::Entry, 2), (Kd::Retain, 1)];
@@ -73,7 +74,7 @@ pub const TABLE_CORE: &[(Kd, u32)] = &[
     (Kd::FillNoAlloc, 1),
 ];
 const TABLE_BUILD: &[(Kd, u32)] = &[(Kd::TInsertUnique, 30), (Kd::TFindEntry, 14), (Kd::TFind, 2), (Kd::TEntry, 3), (Kd::Clear, 1), (Kd::Reserve, 1), (Kd::ShrinkTo, 1), (Kd::WithCapacity, 1), (Kd::Retain, 1)];
-const TABLE_WORLDS: &[(&str, u32)] = &[("T24", 6), ("Tzd", 1), ("Tzp", 1)];
+const TABLE_WORLDS: &[(&str, u32)] = &[("T24", 6), ("Tzd", 1), ("Tzp", 1), ("Tza", 1)];
 
 /// The HashTable variant of a property's profile (None: the property has no table part).
 fn table_spec(prop: &str, thorough: bool, rng: &mut Rng, universe: u32, n_ops: usize) -> Option<RunSpec> {
@@ -163,6 +164,7 @@ fn set_spec(prop: &str, thorough: bool, rng: &mut Rng, universe: u32, n_ops: usi
             n_ops = rng.range(8, if thorough { 120 } else { 80 }) as usize;
             gen(Family::Set, *rng.pick(&[12u32, 40, 64, 100]), with(SET_CORE, &[(Kd::CloneFrom, 4), (Kd::ExtractIf, 3), (Kd::Retain, 3), (Kd::FillNoAlloc, 2), (Kd::SetOpAssign, 6), (Kd::SetOp, 3), (Kd::Extend, 3)], rng))
         }
+        "C08" => gen(Family::Set, universe, with(SET_CORE, &[(Kd::WithCapacity, 6), (Kd::New, 2), (Kd::DropSlot, 2), (Kd::Reserve, 8), (Kd::FillNoAlloc, 8), (Kd::Clear, 4), (Kd::Drain, 4), (Kd::ShrinkTo, 8), (Kd::ShrinkToFit, 4)], rng)),
         "C09" => gen(Family::Set, universe, with(SET_CORE, &[(Kd::Iter, 30), (Kd::IntoIter, 8), (Kd::Drain, 8)], rng)),
         "C10" => gen(Family::Set, universe, with(SET_CORE, &[(Kd::Retain, 14), (Kd::ExtractIf, 16), (Kd::Drain, 12)], rng)),
         "C11" => {
@@ -178,7 +180,7 @@ fn set_spec(prop: &str, thorough: bool, rng: &mut Rng, universe: u32, n_ops: usi
 fn set_share(prop: &str) -> u64 {
     match prop {
         "C07" => 100,
-        "C02" | "C03" | "C04" | "C09" | "C10" | "C11" => 15,
+        "C02" | "C03" | "C04" | "C08" | "C09" | "C10" | "C11" => 15,
         _ => 0,
     }
 }
@@ -219,7 +221,7 @@ pub fn spec_for(prop: &str, thorough: bool, rng: &mut Rng) -> RunSpec {
         "C02" => {
             // safety monitors under cancellation: every iterator/drain/extract_if/entry may be dropped or
             // forgotten part-way; lying size hints; all layouts
-            let world = pick_world(rng, &[("M16", 3), ("Mpod", 2), ("M208", 2), ("M64a", 3)]);
+            let world = pick_world(rng, &[("M16", 3), ("Mpod", 2), ("M208", 2), ("M64a", 3), ("M5", 1), ("M6", 1)]);
             let cfg = base_cfg(rng, 3);
             let mut g = gen(Family::Map, universe, with(MAP_CORE, &[(Kd::Iter, 8), (Kd::IntoIter, 8), (Kd::Drain, 8), (Kd::ExtractIf, 8), (Kd::Entry, 6), (Kd::Extend, 4), (Kd::CloneFrom, 2), (Kd::GetMany, 2), (Kd::FillNoAlloc, 1)], rng));
             g.allow_forget = true;
@@ -233,6 +235,10 @@ pub fn spec_for(prop: &str, thorough: bool, rng: &mut Rng) -> RunSpec {
             let cfg = base_cfg(rng, 3);
             let mut g = gen(Family::Map, universe, with(MAP_BUILD, &[(Kd::IntoIter, 8), (Kd::Drain, 6), (Kd::ExtractIf, 6), (Kd::Retain, 4), (Kd::Clear, 2), (Kd::CloneFrom, 6), (Kd::CloneTo, 2), (Kd::ShrinkTo, 3), (Kd::ShrinkToFit, 2), (Kd::New, 3), (Kd::DropSlot, 2), (Kd::RemoveEntry, 4), (Kd::Insert, 10), (Kd::Entry, 4)], rng));
             g.macro_den = *rng.pick(&[12, 25]);
+            // a quarter of the runs also let elements leave under unwinding (a callback panics mid-operation)
+            if rng.below(4) == 0 {
+                g.fault_pct = 8;
+            }
             RunSpec { world, cfg, gen: g, n_ops }
         }
         "C04" => {
@@ -355,6 +361,34 @@ pub fn spec_for(prop: &str, thorough: bool, rng: &mut Rng) -> RunSpec {
             g.macro_den = *rng.pick(&[10, 20]);
             RunSpec { world, cfg, gen: g, n_ops }
         }
+        "C19" => {
+            let fam = rng.below(10);
+            let (family, world, base): (Family, String, &[(Kd, u32)]) = if fam < 5 {
+                (Family::Map, pick_world(rng, &[("M16", 4), ("Mpod", 1), ("M208", 1)]), MAP_BUILD)
+            } else if fam < 8 {
+                (Family::Set, pick_world(rng, &[("S8", 2), ("S24", 2), ("S1", 1)]), SET_CORE)
+            } else {
+                (Family::Table, pick_world(rng, &[("T24", 3), ("Tzd", 1)]), TABLE_BUILD)
+            };
+            let mut cfg = base_cfg(rng, 3);
+            cfg.sweep_below = 24;
+            // tables from a few buckets to several thousand, so that split trees get deep
+            let uni = *rng.pick(&[8u32, 24, 64, 200, 600, 2000]);
+            let mut g = gen(family, uni, with(base, &[(Kd::Par, 45), (Kd::Extend, if family == Family::Table { 0 } else { 10 }), (Kd::FillNoAlloc, 4)], rng));
+            g.macro_den = *rng.pick(&[8, 15]);
+            RunSpec { world, cfg, gen: g, n_ops: n_ops.min(90) }
+        }
+        "C20" => {
+            // any map/set reached by a history, serialised and read back (cleanly and through a faulty
+            // reader), and streams with repeated keys, lying lengths and an error at element k
+            let set = rng.below(3) == 0;
+            let world = if set { pick_world(rng, &[("S8", 2), ("S24", 2), ("S1", 1)]) } else { pick_world(rng, &[("M16", 4), ("Mpod", 2), ("M208", 1)]) };
+            let cfg = base_cfg(rng, 3);
+            let base = if set { SET_CORE } else { MAP_BUILD };
+            let mut g = gen(if set { Family::Set } else { Family::Map }, universe.min(200), with(base, &[(Kd::SerdeRoundTrip, 14), (Kd::SerdeStream, 24)], rng));
+            g.macro_den = *rng.pick(&[10, 20]);
+            RunSpec { world, cfg, gen: g, n_ops: n_ops.min(120) }
+        }
         "C14" => {
             let world = pick_world(rng, MAP_WORLDS);
             let cfg = base_cfg(rng, 3);
@@ -412,6 +446,8 @@ pub fn owns(prop: &str, v: &Violation) -> bool {
         "C12" => starts(c, "tryreserve/") || starts(c, "alloc/invalid-layout") || (k == "TryReserve" && (functional || starts(c, "ledger/") || starts(c, "alloc/") || starts(c, "inv/"))),
         "C13" => starts(c, "churn/") || starts(c, "inv/I4") || starts(c, "hang/") || starts(c, "diverge/"),
         "C14" => starts(c, "entry/") || (k == "Entry" && (functional || starts(c, "inv/"))),
+        "C19" => starts(c, "par/") || (k == "Par" && (functional || starts(c, "ledger/") || starts(c, "alloc/") || starts(c, "inv/"))),
+        "C20" => starts(c, "serde/") || starts(c, "alloc/over-reservation") || (["SerdeRoundTrip", "SerdeStream"].contains(&k) && (functional || starts(c, "ledger/") || starts(c, "alloc/") || starts(c, "inv/"))),
         "C18" => starts(c, "group/") || starts(c, "differential/") || functional || starts(c, "entry/") || starts(c, "inv/"),
         "C15" => starts(c, "getmany/") || (functional && ["GetMany", "GetManyKv", "TGetMany"].contains(&k)),
         _ => true,
